@@ -1,13 +1,14 @@
 #!/usr/bin/env python3
 """recheck_seeds.py [ids...]: re-runs every stored seed against the CURRENT checker: in a scratch
 worktree at the seed's base commit, the property's quick check without and with the patch; a seed
-is detected when the patch adds at least one report. Prints the seeds that are no longer detected."""
+is detected when the patch adds at least one report. Prints the seeds that are no longer detected. With --update the detection result is written back to meta.json."""
 import sys, subprocess, glob, os, re, json
 def sh(*a, **k): return subprocess.run(a, capture_output=True, text=True, **k)
 wt = "/tmp/seed/RS"
 if not os.path.isdir(wt):
     sh("git", "-C", "/repo", "worktree", "add", "-q", "--detach", wt, "HEAD")
-want = set(sys.argv[1:])
+update = "--update" in sys.argv
+want = set(a for a in sys.argv[1:] if a != "--update")
 def alarms(prop):
     out = sh("/verif/bin/hpcheck", "-repo", wt, "-verif", "/var/tmp/vtest", "-property", prop, "-tier", "quick")
     return set(re.sub(r"^\S*: ", "", l)[:160] for l in out.stdout.splitlines() if re.search(r"\[[\w@]+ (violated|undecided)\]", l) or l.startswith("BROKEN"))
@@ -41,5 +42,10 @@ for mf in sorted(glob.glob("/verif/seeded/*/meta.json")):
     rules = sorted(set(re.search(r"\[([\w@]+) ", x).group(1) for x in new if re.search(r"\[([\w@]+) ", x)))
     print(sid, "detected" if new else "MISSED", rules, "(base %d)" % len(base), flush=True)
     if not new: missed.append(sid)
+    if update:
+        m["detected"] = bool(new)
+        m.setdefault("detection", {})["reports"] = sorted(x[:300] for x in new)
+        m["detection"]["exit"] = 1 if new else 0
+        json.dump(m, open(mf, "w"), indent=1)
 sh("git", "-C", wt, "checkout", "-q", "--", "."); sh("git", "-C", wt, "clean", "-fdq")
 print("MISSED:", missed)
